@@ -2,6 +2,7 @@ package main
 
 import (
 	"os"
+	"path/filepath"
 	"sync/atomic"
 
 	"bytes"
@@ -36,7 +37,7 @@ type CutRec struct {
 	Ev    string   `json:"ev"`
 	ID    int      `json:"id"`
 	Judge string   `json:"judge"`
-	Log bool `json:"log"` // a Logger is configured (SMF.Logger for writes, smf.Log for reads): must not change any result
+	Log   bool     `json:"log"` // a Logger is configured (SMF.Logger for writes, smf.Log for reads): must not change any result
 	Bytes hx.B     `json:"bytes"`
 	Base  R        `json:"base"`
 	Cuts  []Cut    `json:"cuts"`
@@ -127,7 +128,7 @@ type SchedRec struct {
 	Ev    string     `json:"ev"`
 	ID    int        `json:"id"`
 	Judge string     `json:"judge"`
-	Log bool `json:"log"` // a Logger is configured (SMF.Logger for writes, smf.Log for reads): must not change any result
+	Log   bool       `json:"log"`   // a Logger is configured (SMF.Logger for writes, smf.Log for reads): must not change any result
 	Bytes hx.B       `json:"bytes"` // the complete valid file
 	Cut   int        `json:"cut"`   // -1: whole file; else only the first Cut bytes are delivered
 	Base  R          `json:"base"`  // bytes.Reader baseline on the delivered bytes
@@ -227,6 +228,23 @@ func runSched(rec *SchedRec) {
 	add("alt1n", &fragReader{data: data, sizes: []int{1, 1 << 20}})
 	add("alt12", &fragReader{data: data, sizes: []int{1, 2}})
 	add("alt3", &fragReader{data: data, sizes: []int{3}})
+	// the file-level entry points: the same bytes in a file on disk, read by smf.ReadFile, and handed to ReadFrom as an *os.File
+	if dir, derr := os.MkdirTemp("", "verif_rf"); derr == nil {
+		pth := filepath.Join(dir, "x.mid")
+		if os.WriteFile(pth, data, 0o644) == nil {
+			v, _, _ := readPath(pth)
+			run := SchedRun{Sched: "ReadFile", Same: sameResult(v, rec.Base), Val: noneR()}
+			if !run.Same {
+				run.Val = v
+			}
+			rec.Runs = append(rec.Runs, run)
+			if f, ferr := os.Open(pth); ferr == nil {
+				add("os.File", f)
+				f.Close()
+			}
+		}
+		os.RemoveAll(dir)
+	}
 	r := rand.New(rand.NewSource(rec.Seed))
 	for i := 0; i < 4; i++ {
 		sz := make([]int, 1+r.Intn(12))
@@ -352,7 +370,7 @@ type WFaultRec struct {
 	Ev     string   `json:"ev"`
 	ID     int      `json:"id"`
 	Judge  string   `json:"judge"`
-	Log bool `json:"log"` // a Logger is configured (SMF.Logger for writes, smf.Log for reads): must not change any result
+	Log    bool     `json:"log"` // a Logger is configured (SMF.Logger for writes, smf.Log for reads): must not change any result
 	Hist   []Op     `json:"hist"`
 	Total  int      `json:"total"` // bytes of the unfaulted output
 	OkErr  bool     `json:"okerr"` // the unfaulted write returned an error
@@ -427,7 +445,7 @@ type RFaultRec struct {
 	Ev     string   `json:"ev"`
 	ID     int      `json:"id"`
 	Judge  string   `json:"judge"`
-	Log bool `json:"log"` // a Logger is configured (SMF.Logger for writes, smf.Log for reads): must not change any result
+	Log    bool     `json:"log"` // a Logger is configured (SMF.Logger for writes, smf.Log for reads): must not change any result
 	Bytes  hx.B     `json:"bytes"`
 	Base   R        `json:"base"`
 	Faults []RFault `json:"faults"`
